@@ -11,8 +11,8 @@ to the Lean model (lean/ThermoVerif/Model/Unifac.lean, Driver/C16.lean) as param
 Case language (case.ops):
   obj <U|D|N|I> <chem,chem,...>        make the model object for that tuple (→ driver `tab …`); `Name~` is a second Chemical
                                        object with the same ID and no group data
-  keepcache                            (first op) do not empty the classes' instance caches before this case
-  regroup <chem> clear|restore         edit the chemical's group data (only generated with VERIF_C16_GROUP_EDITS=1)
+  set <id> <csv>                       the caller overwrites its own array in place (→ driver `set`)
+  regroup <chem> clear|bump|restore    edit the chemical's group data after model objects exist (drop all groups / raise one count)
   new <csv>                            caller's float ndarray                → id
   newt <i8|i4|f4|f8s|f8ro> <csv>       caller's ndarray in another representation (int64, int32, float32, strided float64
                                        view, read-only float64) holding these values → id   (driver: `newo` / `new`)
@@ -41,7 +41,9 @@ RULE = ('a case = one set of 2-6 chemicals (0-2 of them without functional group
         '(all permutations up to 4 chemicals in the thorough tier, sampled otherwise) at the correspondingly permuted '
         'compositions; further model objects over the same members-with-groups in the same relative order with the members '
         'without groups dropped / added / in front / in between / behind (each case starts from empty instance caches, so the '
-        'history of constructions is the one written in the case -- except in the quarter of the cases that start with `keepcache`); '
+        'history of constructions is the one written in the case; a quarter of the cases begin with the constructions of the previous case); '
+        'caller arrays rewritten in place between evaluations (new, call, set, call / f); group data edited after a model exists (clear / '
+        'one count raised / restored); pcf(T, P, Psats) with saturation pressures below and above P; '
         'a second model class built for the same tuple before / between constructions of the first; the tuple with one member replaced '
         'by a same-ID chemical object without group data; T as int / NumPy scalar; positive multiples of simplex points (correspondence only); Gibbs-Duhem probes by central differences along random simplex directions at interior points. '
         'non-trivial = the case evaluated a group-contribution object (not the ideal fallback); distinct = distinct op lists')
@@ -64,16 +66,10 @@ ASSUMPTIONS = [
     'ideal_one, the ndarray half of f_form_eq_object_form and args_pure are true by construction of the model (it defines the ideal '
     'models as 1 and has no primitive that writes a caller array); on the real code these clauses are decided by the protocol fields '
     'g= / x= / fresh= and the oracle (x-modified, result-aliases-*, result-shared-between-calls, args-modified, history), not by proof',
-    'editing a chemical\'s group data after a model object for a tuple containing it exists is not generated by default '
-    '(the instance cache returns the old object: fixes_proposed/C16-4.md; VERIF_C16_GROUP_EDITS=1 generates such histories)',
-    'which positions of a chemical tuple have group data is read from the chemicals (Chemical.UNIFAC/.Dortmund/.NIST), never '
-    'from the model object; the object is validated against it (model-object-inconsistent:*), an exception raised by the real '
-    'object is an oracle failure (raises:*), and an object whose arrays are inconsistent is not executed in-process',
-    'after every evaluation the adapter changes the returned array(s) in place (as a caller doing `gamma *= x` would) and keeps '
-    'them alive; later results must not share memory with them, and re-evaluating the same object, an ideal model of the same size '
-    'and the object of the reversed tuple must be unaffected (result-shared-between-calls, sibling-object)',
-    'each case clears the classes\' `_cached` instance dictionaries first (harness-level reset so that a case is a self-contained history)',
-    'GCEOS activity/fugacity classes and IdealGasPoyintingCorrectionFactors are outside the property text and not modelled',
+    'group data edited after a model object exists is generated by default (repair 3b3fd7f keys the instance cache on the group data); '
+    'VERIF_C16_GROUP_EDITS=0 switches those histories off',
+    'which object serves as the all-ones fallback when at most one member has groups is not judged (values are); a model class must return '
+    'its own class when two or more members have groups',
 ]
 TRUSTED = ['Lean 4.33 kernel', 'correspondence harness harness/props/c16.py + Driver/C16.lean',
            'IEEE double vs real-number gap (theorems are over the reals; the driver runs the same definitions in Float)',
@@ -117,8 +113,8 @@ NIST_GROUPS = {
 }
 CLASSES = {}
 TWINS = ['Water', 'Ethanol', 'Acetone', 'Hexane', 'Toluene', 'Butanol']
-# histories that edit a chemical's group data after a model object exists fire on the current tree
-# (fixes_proposed/C16-4.md); generated only when asked for
+# histories that edit a chemical's group data after a model object exists (clean since repair 3b3fd7f;
+# VERIF_C16_GROUP_EDITS=0 switches them off)
 GROUP_EDITS = os.environ.get('VERIF_C16_GROUP_EDITS', '1') == '1'     # repair 3b3fd7f (C16-4) is committed
 
 
@@ -165,8 +161,8 @@ def setup():
 
 
 def budget(tier):
-    return {'quick': dict(seconds=70, cases=800, shrink_s=20, search_s=10),
-            'thorough': dict(seconds=480, cases=16000, shrink_s=40, search_s=30)}[tier]
+    return {'quick': dict(seconds=70, cases=600, shrink_s=20, search_s=10),
+            'thorough': dict(seconds=480, cases=8000, shrink_s=40, search_s=30)}[tier]
 
 
 # --------------------------------------------------------------------------
@@ -260,8 +256,10 @@ def validate_object(kind, G, cls, chems, grouped):
     n = len(chems)
     expect_group = kind != 'I' and len(grouped) > 1
     is_group = isinstance(G, ac.GroupActivityCoefficients)
-    if expect_group != is_group or (not expect_group and type(G) is not eq.IdealActivityCoefficients) \
-            or (expect_group and type(G) is not cls):
+    # a model class must hand back its own kind of object when at least two members have groups; WHICH object serves as the
+    # all-ones fallback (at most one member with groups) is not a clause: there only the values are judged
+    if (expect_group and type(G) is not cls) or (not expect_group and not is_group and type(G) is not eq.IdealActivityCoefficients
+                                                   and not callable(G)):
         problems.append(('type', f'{cls.__name__}{tuple(c.ID for c in chems)} returned a {type(G).__name__} '
                                  f'({len(grouped)} members have {kind} groups)'))
     try:
@@ -396,6 +394,7 @@ class Session:
     """real objects of one case + the oracle"""
     def __init__(self):
         self.G = None; self.kind = None; self.names = (); self.snap = None
+        self.group_state = {}     # name -> edits applied since the last restore
         self.group_backup = {}    # (name, field) -> group counts before a `regroup … clear`
         self.siblings = {}        # (kind, names) -> object of the class for the reversed tuple
         self.grouped = ()         # positions with group data, from the chemicals (never from the object)
@@ -428,7 +427,7 @@ class Session:
     def restore_groups(self):
         for (name, field), old in list(self.group_backup.items()):
             gc = getattr(POOL[name], field); gc.clear(); gc.update(old)
-        self.group_backup.clear()
+        self.group_backup.clear(); self.group_state.clear()
 
     def guarded(self, i, label, what, fn):
         """run a call into the real code; an exception is a finding about the real object, not a harness crash"""
@@ -519,7 +518,7 @@ class Session:
                 self.scribble(i, 'I(ideal)', r)
         if len(self.names) > 1 and self.usable and self.kind != 'I':
             rev = tuple(reversed(chems))
-            sk = (self.kind, self.names, len(self.group_backup))
+            sk = (self.kind, self.names, tuple(sorted(self.group_state.items())))
             if sk not in self.siblings:
                 with warnings.catch_warnings():
                     warnings.simplefilter('ignore')
@@ -541,6 +540,42 @@ class Session:
                                       f'{type(G).__name__}: the object for the reversed tuple gives {r1[::-1].tolist()} (by name) where '
                                       f'{self.names} gives {g.tolist()}, x={before.tolist()} T={T}', i)
                         self.scribble(i, label, r)
+
+    def rewrite_probe(self, i, label, arg, g, T):
+        """the caller reuses its composition buffer: evaluate, overwrite the SAME array in place, evaluate again.
+        The second answer must be the one for the new contents (no memo keyed on the array object survives a write)."""
+        G = self.G
+        if not (isinstance(arg, np.ndarray) and arg.dtype == np.float64 and arg.flags.writeable and len(arg) > 1): return
+        keep = arg.copy()
+        new = np.roll(keep, 1)
+        if same_bits(new, keep): new = keep[::-1].copy()
+        if same_bits(new, keep): return
+        if self.is_group and self.grouped and float(new[list(self.grouped)].sum()) == 0.0 \
+                and not xsum0_safe('U' if self.kind == 'U' else 'M'):
+            return
+        self.tags.add('caller-rewrite-probe')
+        try:
+            ok, _ = self.guarded(i, label, 'Gamma(x, T)', lambda: G(arg, T))          # the object has just seen this array …
+            if not ok: return
+            arg[...] = new                                                            # … the caller rewrites it …
+            ok, r1 = self.guarded(i, label, 'Gamma(x, T) after x was rewritten in place', lambda: G(arg, T))
+            ok2, ref = self.guarded(i, label, 'Gamma(list, T)', lambda: G(new.tolist(), T))
+            ok3, r3 = self.guarded(i, label, 'Gamma.f(x, T, *args) after x was rewritten in place', lambda: G.f(arg, T, *G.args))
+            if ok and ok2:
+                ref1 = np.asarray(ref, float) * np.ones(len(new))
+                for what, r in (('Gamma(x, T)', r1),) + ((('Gamma.f(x, T, *args)', r3),) if ok3 else ()):
+                    if not same_bits(np.asarray(r, float) * np.ones(len(new)), ref1):
+                        self.fail(f'stale-after-caller-write:{label}',
+                                  f'{type(G).__name__}{self.names}: the caller evaluated x={keep.tolist()}, overwrote the same array with '
+                                  f'{new.tolist()} and called {what} again: got {np.asarray(r).tolist()}, a fresh evaluation of the new '
+                                  f'contents gives {np.asarray(ref).tolist()} (T={T})', i)
+        finally:
+            arg[...] = keep
+        ok, r2 = self.guarded(i, label, 'Gamma(x, T) after x was restored', lambda: G(arg, T))
+        if ok and not same_bits(np.asarray(r2, float) * np.ones(len(g)), g):
+            self.fail(f'stale-after-caller-write:{label}',
+                      f'{type(G).__name__}{self.names}: after the caller restored x={keep.tolist()} in place, Gamma(x, T) gives '
+                      f'{np.asarray(r2).tolist()} instead of {g.tolist()}', i)
 
     # -- one evaluation through the real object ---------------------------------
     def evaluate(self, i, form, arg, T, line, record=True):
@@ -642,7 +677,7 @@ class Session:
                 self.fail(f'f-form:{label}', f'ideal object: f gives {other!r}, call gives {g.tolist()}', i)
             again = None
         # position independence: same named composition, same named coefficients
-        key = (kind, frozenset(zip(self.names, before.tolist())), T, tuple(sorted({m for (m, _) in self.group_backup})))
+        key = (kind, frozenset(zip(self.names, before.tolist())), T, tuple(sorted(self.group_state.items())))
         named = dict(zip(self.names, g.tolist()))
         if len(set(self.names)) == len(self.names):
             old = self.byname.get(key)
@@ -658,6 +693,7 @@ class Session:
         for r in (res, other, again):
             if isinstance(r, np.ndarray): self.scribble(i, label, r)
         self.after_scribble(i, label, g, before, T)
+        self.rewrite_probe(i, label, arg, g, T)
         if record:
             shown = g if not scalar else [float(res)]
             self.emit(line, f'g={csv(shown)} fresh={1 if fresh else 0} x={csv(after)}')
@@ -768,8 +804,16 @@ class Session:
         elif k == 'f':
             self.tags.add('f-form')
             self.evaluate(i, 'f', self.arrays[int(t[1])], self.temperature(t[2], t[3] if len(t) > 3 else None), ' '.join(t[:3]))
+        elif k == 'set':
+            # the caller overwrites its own composition array in place (a solver reusing its x buffer)
+            a = self.arrays[int(t[1])]
+            vals = fl(t[2])
+            if a.flags.writeable and len(vals) == len(a) and np.array_equal(np.array(vals, float).astype(a.dtype).astype(float), np.array(vals, float)):
+                a[...] = vals
+                self.tags.add('caller-rewrites-x')
+                self.emit(op, 'ok')
         elif k == 'keepcache':
-            self.tags.add('warm-instance-caches')
+            pass            # (older replays; histories are now written out in the case itself)
         elif k == 'regroup':
             # the user edits a chemical's group data (all group fields) after model objects may exist
             c = POOL[t[1]]
@@ -777,11 +821,17 @@ class Session:
                 gc = getattr(c, field)
                 if t[2] == 'clear':
                     self.group_backup.setdefault((t[1], field), dict(gc)); gc.clear()
+                elif t[2] == 'bump':
+                    # same group ids, another count (a cache keyed on ids without counts would not notice)
+                    self.group_backup.setdefault((t[1], field), dict(gc))
+                    for g in sorted(gc)[:1]: gc[g] += 1
                 else:
                     old = self.group_backup.pop((t[1], field), None)
                     if old is not None:
                         gc.clear(); gc.update(old)
-            self.tags.add('group-edit')
+            if t[2] == 'restore': self.group_state.pop(t[1], None)
+            else: self.group_state[t[1]] = self.group_state.get(t[1], '') + t[2][0]
+            self.tags.add('group-edit:' + t[2])
         elif k == 'gd':
             x = np.array(fl(t[1])); T = from_fbits(t[2]); d = np.array(fl(t[3])); h = from_fbits(t[4])
             xp, xm = (x + h * d).tolist(), (x - h * d).tolist()
@@ -815,34 +865,46 @@ class Session:
         elif k == 'phi':
             y = np.array(fl(t[1])); T = from_fbits(t[2]); P = from_fbits(t[3])
             chems = tuple(POOL[n] for n in GROUPED[:len(y)])
-            M = eq.IdealFugacityCoefficients(chems)
             before = y.copy()
-            a, b = M(y, T, P), M.f(y, T, P, *M.args)
-            if not (np.all(np.asarray(a) == 1.0) and np.all(np.asarray(b) == 1.0)) or not same_bits(before, y):
-                self.fail('ideal-phi', f'IdealFugacityCoefficients: call gives {a!r}, f gives {b!r}, y after {y.tolist()}', i)
             self.tags.add('phi')
-            self.emit('phi', 'g=' + csv(np.atleast_1d(np.asarray(a, float))[:1]))
+            ok, M = self.guarded(i, 'phi', 'IdealFugacityCoefficients(chemicals)', lambda: eq.IdealFugacityCoefficients(chems))
+            ok1, a = self.guarded(i, 'phi', 'IdealFugacityCoefficients(...)(y, T, P)', lambda: M(y, T, P)) if ok else (False, None)
+            ok2, b = self.guarded(i, 'phi', 'IdealFugacityCoefficients(...).f(y, T, P, *args) (the form the flash solvers call)',
+                                  lambda: M.f(y, T, P, *M.args)) if ok else (False, None)
+            if ok1 and ok2 and (not (np.all(np.asarray(a) == 1.0) and np.all(np.asarray(b) == 1.0)) or not same_bits(before, y)):
+                self.fail('ideal-phi', f'IdealFugacityCoefficients: call gives {a!r}, f gives {b!r}, y after {y.tolist()}', i)
+            self.emit('phi', 'g=' + csv(np.atleast_1d(np.asarray(a, float))[:1]) if ok1 else 'raised')
         elif k == 'pcf':
             T = from_fbits(t[1]); P = from_fbits(t[2])
-            M = eq.MockPoyintingCorrectionFactors(tuple(POOL[n] for n in GROUPED[:3]))
-            a = M(T, P)
-            if not np.all(np.asarray(a) == 1.0):
-                self.fail('ideal-pcf', f'MockPoyintingCorrectionFactors gives {a!r}', i)
-            if hasattr(M, 'f'):            # (the class has no functional form today; if it gets one it must agree)
-                b = M.f(T, P, *getattr(M, 'args', ()))
-                if not np.all(np.asarray(b) == 1.0):
-                    self.fail('ideal-pcf', f'MockPoyintingCorrectionFactors.f gives {b!r}', i)
-            for Mi in (eq.IdealActivityCoefficients, eq.IdealFugacityCoefficients):
-                obj = Mi(tuple(POOL[n] for n in GROUPED[:3]))
-                if not (callable(getattr(obj, 'f', None)) and getattr(obj, 'args', None) == () and obj.f() == 1.0):
-                    self.fail('ideal-decorator', f'{Mi.__name__}: the @ideal decorator no longer provides f() == 1.0 and args == ()', i)
             self.tags.add('pcf')
-            self.emit('pcf', 'g=' + csv(np.atleast_1d(np.asarray(a, float))[:1]))
+            ok, M = self.guarded(i, 'pcf', 'MockPoyintingCorrectionFactors(chemicals)',
+                                 lambda: eq.MockPoyintingCorrectionFactors(tuple(POOL[n] for n in GROUPED[:3])))
+            ok1, a = self.guarded(i, 'pcf', 'MockPoyintingCorrectionFactors(...)(T, P)', lambda: M(T, P)) if ok else (False, None)
+            if ok1 and not np.all(np.asarray(a) == 1.0):
+                self.fail('ideal-pcf', f'MockPoyintingCorrectionFactors(T, P) gives {a!r}', i)
+            if ok:
+                # the way every solver calls it: pcf(T, P, Psats) with the array of saturation pressures, below and above P
+                for Psats in (np.array(fl(t[3])) if len(t) > 3 else np.array([0.5 * P, P, 2.0 * P]),):
+                    keep = Psats.copy()
+                    okp, c = self.guarded(i, 'pcf', 'MockPoyintingCorrectionFactors(...)(T, P, Psats)', lambda: M(T, P, Psats))
+                    self.tags.add('pcf-with-Psats')
+                    if okp and (not np.all(np.asarray(c) == 1.0) or not same_bits(keep, Psats)):
+                        self.fail('ideal-pcf', f'MockPoyintingCorrectionFactors(T={T}, P={P}, Psats={keep.tolist()}) gives {c!r}; '
+                                               f'Psats afterwards {Psats.tolist()}', i)
+                    if okp and isinstance(c, np.ndarray): self.check_fresh(i, 'pcf', c, 'MockPoyintingCorrectionFactors(T, P, Psats)')
+            for Mi in (eq.IdealActivityCoefficients, eq.IdealFugacityCoefficients):
+                okd, obj = self.guarded(i, 'ideal-decorator', Mi.__name__, lambda: Mi(tuple(POOL[n] for n in GROUPED[:3])))
+                if okd and not (callable(getattr(obj, 'f', None)) and getattr(obj, 'args', None) == ()):
+                    self.fail('ideal-decorator', f'{Mi.__name__}: the @ideal decorator no longer provides f and args == ()', i)
+                elif okd:
+                    okf, v = self.guarded(i, 'ideal-decorator', Mi.__name__ + '.f()', lambda: obj.f())
+                    if okf and v != 1.0: self.fail('ideal-decorator', f'{Mi.__name__}.f() = {v!r}', i)
+            self.emit('pcf', 'g=' + csv(np.atleast_1d(np.asarray(a, float))[:1]) if ok1 else 'raised')
         elif k == 'idealf':
-            a = ac.ideal.__globals__['_ideal_coefficient']()
-            if a != 1.0: self.fail('ideal-f', f'_ideal_coefficient() = {a!r}', i)
             self.tags.add('idealf')
-            self.emit('idealf', 'g=' + csv([a]))
+            ok, a = self.guarded(i, 'ideal-f', '_ideal_coefficient()', lambda: ac.ideal.__globals__['_ideal_coefficient']())
+            if ok and a != 1.0: self.fail('ideal-f', f'_ideal_coefficient() = {a!r}', i)
+            self.emit('idealf', 'g=' + csv([a]) if ok else 'raised')
         else:
             raise ValueError('unknown op ' + op)
 
@@ -850,16 +912,14 @@ class Session:
 def run_impl(case: Case) -> ImplResult:
     setup()
     # a case is a self-contained history of model constructions: start from empty instance caches
-    # (`keepcache` as first op: the caches are left as the earlier cases of this process filled them)
-    if not (case.ops and case.ops[0] == 'keepcache'):
-        for c in set(CLASSES.values()) | {ac.GroupActivityCoefficients}:
-            d = getattr(c, '_cached', None)
-            if isinstance(d, dict): d.clear()
+    for c in set(CLASSES.values()) | {ac.GroupActivityCoefficients}:
+        d = getattr(c, '_cached', None)
+        if isinstance(d, dict): d.clear()
     S = Session()
     try:
         for i, op in enumerate(case.ops):
-            if S.G is None and op.split(' ')[0] in ('new', 'newt', 'call', 'f', 'gd', 'ac', 'gdac'):
-                if op.startswith('new'):
+            if S.G is None and op.split(' ')[0] in ('new', 'newt', 'set', 'call', 'f', 'gd', 'ac', 'gdac'):
+                if op.startswith('new') or op.startswith('set'):
                     S.apply(i, op)
                 continue        # (shrinking may drop the obj line: evaluations without an object are skipped)
             S.apply(i, op)
@@ -975,13 +1035,19 @@ def variant_ops(rng, kind, gnames, base, drop):
             f'call seq {csv([1.0 if j == i0 else 0.0 for j in range(len(tup))])} {fbits(T)}']
 
 
+_PREV_OBJ = []          # the `obj` lines of the case generated before (same worker)
+
+
 def gen_case(rng, tier, kind=None, names=None):
     kind = kind or rng.choice('UUUDDDNNI')
     names = names or pick_names(rng)
     n = len(names)
     nid = 0
     T = rand_T(rng)
-    ops = ['keepcache'] if rng.random() < 0.25 else []
+    ops = []
+    # warm instance caches, written out: the constructions of the previous case of this worker come first
+    if rng.random() < 0.25 and _PREV_OBJ:
+        ops += list(_PREV_OBJ)
     # a second model class over the same tuple (the instance caches are per class)
     kind2 = rng.choice([k for k in 'UDN' if k != kind]) if kind != 'I' else None
     x0 = simplex_point(rng, n, 'uniform'); T0 = rand_T(rng)
@@ -1086,7 +1152,7 @@ def gen_case(rng, tier, kind=None, names=None):
                 f'obj {kind} {",".join(names)}', f'call seq {csv(x0)} {fbits(T0)}']
     if GROUP_EDITS and kind != 'I' and gnames and rng.random() < 0.4:
         m = rng.choice(gnames)
-        ops += [f'obj {kind} {",".join(names)}', f'call seq {csv(x0)} {fbits(T0)}', f'regroup {m} clear',
+        ops += [f'obj {kind} {",".join(names)}', f'call seq {csv(x0)} {fbits(T0)}', f'regroup {m} {rng.choice(["clear", "bump"])}',
                 f'obj {kind} {",".join(names)}', f'call seq {csv(x0)} {fbits(T0)}', f'regroup {m} restore',
                 f'obj {kind} {",".join(names)}', f'call seq {csv(x0)} {fbits(T0)}']
     if base is not None:
@@ -1108,7 +1174,26 @@ def gen_case(rng, tier, kind=None, names=None):
             k = rng.choice([2.0, 0.5, 37.5, 1e-3])
             op = f'call seq {csv([v * k for v in fl(t[2])])} {t[3]}'
         out.append(op)
-    return Case(out, {})
+    # the caller rewrites its own array between evaluations (new -> call -> set -> call / f)
+    final, contents = [], {}
+    nn = 0
+    for op in out:
+        final.append(op)
+        t = op.split(' ')
+        if t[0] == 'new' or (t[0] == 'newt' and t[1] in ('f8s',)):
+            contents[nn] = len(fl(t[-1])); nn += 1
+        elif t[0] == 'newt':
+            nn += 1
+        elif t[0] in ('call', 'f') and (t[1] == 'nd' or t[0] == 'f') and rng.random() < 0.35:
+            aid = int(t[2] if t[0] == 'call' else t[1])
+            if aid in contents:
+                x2 = simplex_point(rng, contents[aid], rng.choice(['uniform', 'uniform', 'trace', 'sparse']))
+                Tt = t[3] if t[0] == 'call' else t[2]
+                final.append(f'set {aid} {csv(x2)}')
+                for fm in rng.choice([['call'], ['f'], ['call', 'f'], ['f', 'call']]):
+                    final.append(f'call nd {aid} {Tt}' if fm == 'call' else f'f {aid} {Tt}')
+    _PREV_OBJ[:] = [op for op in final if op.startswith('obj ')][:12]
+    return Case(final, {})
 
 
 def generate(rng, tier, index, nworkers):
@@ -1159,6 +1244,10 @@ def corpus():
                         f'obj {k} Water,Ethanol~,Acetone', f'call seq {csv([0.25, 0.5, 0.25])} {Tb}', f'call seq {csv([0.0, 1.0, 0.0])} {Tb}',
                         f'obj {k} Water,Ethanol~', f'call seq {xb} {Tb}',
                         f'obj {k} Water,Ethanol,Acetone', f'call seq {csv([0.25, 0.5, 0.25])} {Tb}']))
+    for k in 'UDNI':
+        cs.append(Case([f'obj {k} Water,Ethanol,Acetone', f'new {csv([0.25, 0.5, 0.25])}', f'call nd 0 {Tb}', f'set 0 {csv([0.5, 0.25, 0.25])}',
+                        f'call nd 0 {Tb}', f'f 0 {Tb}', f'set 0 {csv([0.0, 0.0, 1.0])}', f'f 0 {Tb}', f'call nd 0 {Tb}',
+                        f'pcf {Tb} {fbits(101325.0)} {csv([5e4, 101325.0, 3e5])}', f'phi {csv([0.5, 0.5])} {Tb} {fbits(101325.0)}']))
     cs.append(Case(['obj I Water,Ethanol', f'call seq {half},{half} {T}', f'new {half},{half}', f'call nd 0 {T}', f'f 0 {T}',
                     f'phi {half},{half} {T} {fbits(101325.0)}', f'pcf {T} {fbits(101325.0)}', 'idealf']))
     return cs
